@@ -3,6 +3,8 @@ package main
 import (
 	"fmt"
 	"go/types"
+	"sort"
+	"strconv"
 	"strings"
 
 	"golang.org/x/tools/go/ssa"
@@ -170,8 +172,16 @@ func (x *Exec) modelCLI(a *activation, b *ssa.BasicBlock, i int, in *ssa.Call, c
 		}
 		var data []string
 		formatted := strings.HasSuffix(name, "f")
+		rawData := strings.HasSuffix(name, ".Write") || strings.HasSuffix(name, "WriteString")
 		for k, r := range rest {
 			switch {
+			case rawData:
+				// the data itself (a byte slice or string), not a list of operands
+				t := r.tag
+				if t == "" {
+					t = "?"
+				}
+				data = append(data, t)
 			case r.k == 'L' && r.obj != 0:
 				data = append(data, x.varargTags(r, h)...)
 			case formatted && k == 0:
@@ -194,7 +204,65 @@ func (x *Exec) modelCLI(a *activation, b *ssa.BasicBlock, i int, in *ssa.Call, c
 				data = append(data, t)
 			}
 		}
-		p2 := p.note(ch + ":" + strings.Join(data, ","))
+		// what reaches the stream, as a sequence of pieces: symbolic data tags and
+		// quoted literal text (so that Println(x), Printf("%s\n", x) and
+		// Fprintf(w, "%s", x); Fprintln(w) are the same output)
+		var toks []string
+		lit := func(t string) {
+			if t != "" {
+				toks = append(toks, fmt.Sprintf("%q", t))
+			}
+		}
+		switch {
+		case formatted && len(data) > 0 && strings.HasPrefix(data[0], "format\""):
+			f, err := strconv.Unquote(strings.TrimPrefix(data[0], "format"))
+			argi := 1
+			if err != nil {
+				toks = append(toks, "UNKNOWN(format)")
+				break
+			}
+			cur := ""
+			for k := 0; k < len(f); k++ {
+				if f[k] != '%' {
+					cur += string(f[k])
+					continue
+				}
+				if k+1 < len(f) && f[k+1] == '%' {
+					cur += "%"
+					k++
+					continue
+				}
+				if k+1 < len(f) && (f[k+1] == 's' || f[k+1] == 'v') && argi < len(data) {
+					lit(cur)
+					cur = ""
+					toks = append(toks, data[argi])
+					argi++
+					k++
+					continue
+				}
+				lit(cur)
+				cur = ""
+				toks = append(toks, "UNKNOWN(verb)")
+				k++
+			}
+			lit(cur)
+			if argi != len(data) {
+				toks = append(toks, "UNKNOWN(extra arguments)")
+			}
+		case formatted:
+			toks = append(toks, "UNKNOWN(format)")
+		case strings.HasSuffix(name, "ln"):
+			for k, d := range data {
+				if k > 0 {
+					lit(" ")
+				}
+				toks = append(toks, d)
+			}
+			lit("\n")
+		default:
+			toks = append(toks, data...)
+		}
+		p2 := p.note(ch + ":" + strings.Join(toks, "\x1f"))
 		fr.vals[in] = AV{k: 'T', tup: []AV{{k: 'N'}, errOK()}}
 		a.cont(b, i+1, fr, h, p2)
 		return true, true
@@ -239,7 +307,10 @@ func ruleJpgoAbs(c *Ctx) *RuleResult {
 	r := &RuleResult{Doc: "run() interpreted abstractly with symbolic tags (helpers inlined, every fallible call forked into success/failure): outside -ast mode a path returns status 0 only with exactly one stdout write whose data is marshal(search(expr, json(<all of the -input file | all of stdin>))), the input channel matching the -input flag test; a path with another status writes nothing to stdout; no path has an unknown status; main is os.Exit(run())", Floor: 8}
 	run := c.SCLI.Func("run")
 	if run == nil {
-		lost("cmd/jpgo: run not found")
+		run = c.SCLI.Func("main") // everything is in main: positions refer to it
+	}
+	if run == nil {
+		lost("cmd/jpgo: main not found")
 	}
 	x := c.newExec(UJSON, "jpgo run()")
 	x.cli = true
@@ -334,17 +405,31 @@ func ruleJpgoAbs(c *Ctx) *RuleResult {
 		}
 		// status 0 outside -ast
 		okData := false
-		if len(stdout) == 1 {
-			d := stdout[0]
-			// Println(x) / Printf("%s\n", x) / Fprint*(os.Stdout, ...)
-			d = strings.TrimPrefix(d, `format"%s\n",`)
-			d = strings.TrimPrefix(d, `format"%s",`)
-			d = strings.TrimPrefix(d, `format"%v\n",`)
+		// the concatenated output: the serialised result, optionally followed by one newline
+		var stream []string
+		for _, w := range stdout {
+			for _, t := range strings.Split(w, "\x1f") {
+				if t != "" {
+					stream = append(stream, t)
+				}
+			}
+		}
+		if n := len(stream); n >= 2 && stream[n-1] == `"\n"` {
+			stream = stream[:n-1]
+		}
+		if len(stream) == 1 {
+			d := stream[0]
+			if strings.HasPrefix(d, "string(") && strings.HasSuffix(d, ")") {
+				d = strings.TrimSuffix(strings.TrimPrefix(d, "string("), ")")
+			}
 			if haveFileNote && fileMode {
 				okData = d == wantFile[0] || d == wantFile[1]
 			} else if haveFileNote {
 				okData = d == wantStdin
 			}
+		}
+		for k := range stdout {
+			stdout[k] = strings.ReplaceAll(stdout[k], "\x1f", " ")
 		}
 		if okData {
 			nOK++
@@ -355,7 +440,19 @@ func ruleJpgoAbs(c *Ctx) *RuleResult {
 	if len(paths) == 0 {
 		r.undecided("paths", pos, "run", "no path through run() returns")
 	}
-	if len(problems) == 0 {
+	if len(problems) > 0 && len(x.gaps) > 0 {
+		// findings that may rest on a construct without a model are not verdicts
+		var ps []string
+		for k := range problems {
+			ps = append(ps, k)
+		}
+		sort.Strings(ps)
+		r.undecided("run-paths", pos, "run", "not decided (a construct without a model was met): "+strings.Join(ps, "; "))
+		problems = map[string]bool{}
+		nOK = -1
+	}
+	if nOK < 0 {
+	} else if len(problems) == 0 {
 		r.ok("run-paths", pos, "run", fmt.Sprintf("%d paths through run() (helpers inlined): every status-0 path outside -ast prints exactly the serialised Search result of the expression on the decoded whole input; failing paths print nothing on stdout", nOK))
 	} else {
 		i := 0
